@@ -28,6 +28,18 @@
 #include <xercesc/util/XMemory.hpp>
 #include <xercesc/util/XMLEntityResolver.hpp>
 #include <xercesc/validators/common/Grammar.hpp>
+#include <xercesc/framework/MemBufFormatTarget.hpp>
+#include <xercesc/framework/psvi/XSValue.hpp>
+#include <xercesc/framework/psvi/XSModel.hpp>
+#include <xercesc/framework/psvi/XSNamedMap.hpp>
+#include <xercesc/framework/psvi/XSElementDeclaration.hpp>
+#include <xercesc/framework/psvi/XSTypeDefinition.hpp>
+#include <xercesc/util/regx/RegularExpression.hpp>
+#include <xercesc/util/Base64.hpp>
+#include <xercesc/util/XMLUri.hpp>
+#include <xercesc/util/XMLURL.hpp>
+#include <xercesc/util/TransService.hpp>
+#include <xercesc/util/RefArrayVectorOf.hpp>
 #include <map>
 #include <unordered_map>
 #include <stdexcept>
@@ -522,9 +534,8 @@ static void doCase(const std::string& id, const KV& kv) {
         for (long j = 0; j <= J; j++) {
             long jj = (J == steps) ? j : j * steps / (J ? J : 1);
             int how = (int)(jj % 3);
-            // leaving a progressive parse without parseReset and starting another parse on the SAME parser is explored
-            // by the separate request "progreuse" (known finding C18-STALE-READERS: the reader stack is not flushed)
-            if (reuse && how == 1) how = 0;
+            // how == 1 on a reused parser = leaving a progressive parse without parseReset and starting another parse on
+            // the SAME parser (was finding C18-STALE-READERS, fixed by 6295703; also replayed by request "progreuse")
             if (!p) { gp = makePool(cfg); p = new AnyParser(cfg, mgr(2), gp); }
             p->arm(0);
             long st = 0;
@@ -841,6 +852,187 @@ static void doProgReuse(const std::string& id, const KV& kv) {
     outLine("end " + id);
 }
 
+// "misc": other objects that take a MemoryManager: serializer, XPath, regular expressions, XSValue, URIs, Base64,
+// transcoding helpers, XSModel of a grammar pool, DOM editing.  strs = hex strings separated by ',' used as inputs.
+static void doMisc(const std::string& id, const KV& kv) {
+    Cfg cfg = readCfg(kv);
+    std::string ops = get(kv, "ops", "SXRUTVBN");
+    std::vector<std::string> strs;
+    {
+        std::string all = get(kv, "strs", "");
+        size_t pos = 0;
+        while (pos < all.size()) {
+            size_t comma = all.find(',', pos);
+            if (comma == std::string::npos) comma = all.size();
+            strs.push_back(unhex(all.substr(pos, comma - pos)));
+            pos = comma + 1;
+        }
+        if (strs.empty()) strs.push_back("a+b*");
+    }
+    LedgerMM* mm = mgr(2);
+    outLine("begin " + id);
+    std::string log;
+    for (size_t i = 0; i < ops.size(); i++) {
+        char c = ops[i];
+        const std::string& sarg = strs[i % strs.size()];
+        try {
+            if (c == 'S' || c == 'X' || c == 'N') {
+                cfg.api = "dom";
+                AnyParser p(cfg, mm, 0);
+                p.arm(0);
+                std::string r = p.parse(cfg.doc);
+                DOMDocument* doc = p.dom->getDocument();
+                if (!doc) { log += '0'; continue; }
+                if (c == 'S') {
+                    static const XMLCh lsFeat[] = { 'L', 'S', 0 };
+                    DOMImplementationLS* impl = (DOMImplementationLS*)DOMImplementationRegistry::getDOMImplementation(lsFeat);
+                    DOMLSSerializer* ser = impl->createLSSerializer(mm);
+                    ser->getDomConfig()->setParameter(XMLUni::fgDOMWRTFormatPrettyPrint, (i % 2) == 0);
+                    XMLCh* out = ser->writeToString(doc, mm);
+                    if (out) XMLString::release(&out, mm);
+                    DOMLSOutput* lo = impl->createLSOutput(mm);
+                    MemBufFormatTarget* tgt = new (mm) MemBufFormatTarget(64, mm);
+                    lo->setByteStream(tgt);
+                    XMLCh* enc = XMLString::transcode(i % 3 ? "UTF-16" : "ISO-8859-1", mm);
+                    lo->setEncoding(enc);
+                    XMLString::release(&enc, mm);
+                    try { ser->write(doc, lo); } catch (...) { log += 'w'; }
+                    lo->release();
+                    delete tgt;
+                    ser->release();
+                    log += 'S';
+                } else if (c == 'X') {
+                    XMLCh* ex = XMLString::transcode(sarg.c_str(), mm);
+                    DOMXPathResult* res = 0;
+                    DOMElement* root = doc->getDocumentElement();
+                    DOMXPathNSResolver* nsr = root ? doc->createNSResolver(root) : 0;
+                    try {
+                        res = doc->evaluate(ex, root ? (DOMNode*)root : (DOMNode*)doc, nsr, DOMXPathResult::ORDERED_NODE_SNAPSHOT_TYPE, 0);
+                        if (res) { log += 'X'; log += std::to_string(res->getSnapshotLength()); res->release(); }
+                    } catch (const DOMXPathException&) { log += 'x'; } catch (const DOMException&) { log += 'x'; }
+                    if (nsr) nsr->release();     // the resolver owns a prefix map outside the document heap
+                    XMLString::release(&ex, mm);
+                } else {
+                    DOMElement* root = doc->getDocumentElement();
+                    if (root) {
+                        DOMNode* cl = root->cloneNode(true);
+                        root->appendChild(cl);
+                        XMLCh* nm = XMLString::transcode("renamed", mm);
+                        try { doc->renameNode(cl, 0, nm); } catch (const DOMException&) { log += 'n'; }
+                        XMLString::release(&nm, mm);
+                        root->normalize();
+                        if (root->getFirstChild()) { DOMNode* rm = root->removeChild(root->getFirstChild()); rm->release(); }
+                        XMLCh* big = (XMLCh*)mm->allocate(3000 * sizeof(XMLCh));
+                        for (int k = 0; k < 2999; k++) big[k] = 'y'; big[2999] = 0;
+                        root->setAttribute(big, big);
+                        root->appendChild(doc->createTextNode(big));
+                        mm->deallocate(big);
+                        DOMDocument* d2 = (DOMDocument*)doc->cloneNode(true);
+                        d2->release();
+                    }
+                    log += 'N';
+                }
+            } else if (c == 'R') {
+                XMLCh* pat = XMLString::transcode(sarg.c_str(), mm);
+                XMLCh* subj = XMLString::transcode("aab abb 2001-01-01 xyz", mm);
+                try {
+                    RegularExpression* re = new (mm) RegularExpression(pat, (i % 2) ? XMLUni::fgZeroLenString : (const XMLCh*)0, mm);
+                    bool m = re->matches(subj, mm);
+                    RefArrayVectorOf<XMLCh>* toks = 0;
+                    try { toks = re->tokenize(subj, mm); } catch (const XMLException&) { log += 't'; }
+                    delete toks;
+                    XMLCh* rep = 0;
+                    try { rep = re->replace(subj, pat, mm); } catch (const XMLException&) { log += 'p'; }
+                    if (rep) XMLString::release(&rep, mm);
+                    delete re;
+                    log += m ? 'R' : 'r';
+                } catch (const XMLException&) { log += 'e'; }
+                XMLString::release(&pat, mm);
+                XMLString::release(&subj, mm);
+            } else if (c == 'U') {
+                XMLCh* rel = XMLString::transcode(sarg.c_str(), mm);
+                XMLCh* base = XMLString::transcode("http://example.org/a/b/c?q#f", mm);
+                try {
+                    XMLUri* b = new (mm) XMLUri(base, mm);
+                    try { XMLUri* u = new (mm) XMLUri(b, rel, mm); delete u; log += 'U'; } catch (const XMLException&) { log += 'u'; }
+                    delete b;
+                    try { XMLURL* url = new (mm) XMLURL(base, rel, mm); delete url; } catch (const XMLException&) { log += 'l'; }
+                } catch (const XMLException&) { log += 'e'; }
+                XMLString::release(&rel, mm);
+                XMLString::release(&base, mm);
+            } else if (c == 'T') {
+                XMLCh* w = XMLString::transcode(sarg.c_str(), mm);
+                char* n = XMLString::transcode(w, mm);
+                XMLString::release(&n, mm);
+                {
+                    TranscodeToStr t8(w, "UTF-8", mm);
+                    TranscodeFromStr f8(t8.str(), t8.length(), "UTF-8", mm);
+                    XMLCh* ad = f8.adopt();
+                    XMLString::release(&ad, mm);
+                    try { TranscodeToStr bad(w, "no-such-encoding", mm); } catch (const XMLException&) { log += 'b'; }
+                }
+                XMLCh* rep = XMLString::replicate(w, mm);
+                XMLString::release(&rep, mm);
+                XMLString::release(&w, mm);
+                log += 'T';
+            } else if (c == 'V') {
+                XMLCh* w = XMLString::transcode(sarg.c_str(), mm);
+                static const XSValue::DataType dts[] = { XSValue::dt_decimal, XSValue::dt_dateTime, XSValue::dt_base64Binary, XSValue::dt_hexBinary,
+                                                         XSValue::dt_double, XSValue::dt_anyURI, XSValue::dt_QName, XSValue::dt_integer, XSValue::dt_duration };
+                for (size_t k = 0; k < sizeof dts / sizeof dts[0]; k++) {
+                    XSValue::Status st;
+                    XSValue::validate(w, dts[k], st, XSValue::ver_10, mm);
+                    XMLCh* can = XSValue::getCanonicalRepresentation(w, dts[k], st, XSValue::ver_10, true, mm);
+                    if (can) XMLString::release(&can, mm);
+                    XSValue* v = XSValue::getActualValue(w, dts[k], st, XSValue::ver_10, true, mm);
+                    delete v;
+                }
+                XMLString::release(&w, mm);
+                log += 'V';
+            } else if (c == 'B') {
+                XMLSize_t n1 = 0, n2 = 0;
+                XMLByte* e = Base64::encode((const XMLByte*)sarg.data(), sarg.size(), &n1, mm);
+                if (e) { XMLByte* d = Base64::decode(e, &n2, mm); if (d) mm->deallocate(d); mm->deallocate(e); }
+                XMLByte* bad = Base64::decode((const XMLByte*)sarg.c_str(), &n2, mm);
+                if (bad) mm->deallocate(bad);
+                log += 'B';
+            } else if (c == 'G') {
+                LedgerMM* m3 = mgr(3);
+                XMLGrammarPool* gp = new (m3) XMLGrammarPoolImpl(m3);
+                {
+                    Cfg c2 = cfg; c2.api = "sax2"; c2.sch = 1; c2.ns = 1;
+                    AnyParser p(c2, mm, gp);
+                    p.arm(0);
+                    for (std::map<std::string, std::string>::iterator it = cfg.ext.begin(); it != cfg.ext.end(); ++it) {
+                        bool xsd = it->first.size() > 4 && it->first.substr(it->first.size() - 4) == ".xsd";
+                        MemBufInputSource src((const XMLByte*)it->second.data(), it->second.size(), it->first.c_str(), false, mm);
+                        try { p.sax2->loadGrammar(src, xsd ? Grammar::SchemaGrammarType : Grammar::DTDGrammarType, true); } catch (...) { log += 'g'; }
+                    }
+                    bool changed = false;
+                    XSModel* model = gp->getXSModel(changed);
+                    if (model) {
+                        XSNamedMap<XSObject>* els = model->getComponents(XSConstants::ELEMENT_DECLARATION);
+                        if (els) for (XMLSize_t k = 0; k < els->getLength(); k++) {
+                            XSElementDeclaration* ed = (XSElementDeclaration*)els->item(k);
+                            if (ed->getTypeDefinition()) ed->getTypeDefinition()->getName();
+                        }
+                        model->getComponents(XSConstants::TYPE_DEFINITION);
+                    }
+                    p.parse(cfg.doc);
+                }
+                delete gp;
+                log += 'G';
+            }
+        } catch (const XMLException& e) { log += '!';
+        } catch (const DOMException& e) { log += '!';
+        } catch (...) { log += '?'; }
+    }
+    outLine("r " + id + " misc " + ops + " " + log);
+    std::vector<int> ids; ids.push_back(2); ids.push_back(3);
+    checkpoint(id + ".misc", ids);
+    outLine("end " + id);
+}
+
 // reference parse used to compare a re-initialised library with the first initialisation
 static void doRef(const std::string& id, const KV& kv) {
     Cfg cfg = readCfg(kv);
@@ -864,6 +1056,8 @@ int main() {
         KV kv = parseKV(a, 2);
         const std::string& op = a[0];
         const std::string& id = a[1];
+        outLine("req " + id);      // names the request in flight should the library crash
+        flushOut();
         bool needLib = !(op == "init" || op == "term" || op == "state" || op == "quiet");
         if (needLib && !XMLPlatformUtils::fgMemoryManager) { outLine("r " + id + " not-initialised"); continue; }
         try {
@@ -877,6 +1071,7 @@ int main() {
             else if (op == "arena") doArena(id, kv);
             else if (op == "ref") doRef(id, kv);
             else if (op == "progreuse") doProgReuse(id, kv);
+            else if (op == "misc") doMisc(id, kv);
             else outLine("r " + id + " bad-request");
             flushOut();
         } catch (const XMLException& e) { outLine("r " + id + " harness-exc:XMLException:" + narrow(e.getMessage()));
